@@ -252,7 +252,7 @@ class VerifyAttrs(object):
                 )
             try:
                 attrs["rank"] = int(attrs["rank"])
-            except ValueError:
+            except (TypeError, ValueError):
                 raise RuntimeError(
                     "'rank' attribute must have an integer value, not '{}'"
                     .format(attrs["rank"])
@@ -2035,6 +2035,10 @@ def check_implied_attrs(context, decls):
                     context.linenumber)
             )
         if expr:
+            if not isinstance(expr, str):
+                raise RuntimeError(
+                    "{}:implied attribute must be an expression, found '{}'"
+                    .format(context.linenumber, expr))
             check_implied(context, expr, decls)
 
 
